@@ -88,6 +88,12 @@ CLAIMED["C17"] = dict(
         "in particular an application write started while the read path's automatic Pong/Close flush is still waiting for writability and a read started while a write is in flight (both counted by probes; 6 directed shapes). "
         "Oracle: every callback exactly once by quiescence, each read with the peer's next frame/message, writes complete in submission order without error, the wire parses into whole frames with every submitted frame and every owed Pong exactly once, IO.Pending() returns to 0.",
    note="At most one application read and one application write in flight; the second writer is always the read path's control-reply flush.")
+CLAIMED["C19"] = dict(
+   technique="deterministic simulation: seeded split/coalesce of a length-prefixed stream over the stub kernel's TCP, independent wire parser, hostile peer",
+   text="CodecConn[[]byte,[]byte] with codec/frame.Codec over sonic conns: (a) an independent encoder writes and sonic reads with the stream cut at tape-chosen offsets (directed: one or two cuts walking through every offset of short streams, incl. inside the 4-byte prefix) and receive buffers down to 1 byte; "
+        "(b) sonic writes (blocking and asynchronous, send buffers down to 7 bytes so would-block falls inside an item) and an independent parser reads the wire; (c) two CodecConns joined by simulated TCP; (d) a hostile peer sending conforming items followed by a declared length above the limit with no body, or junk. "
+        "Oracle: exactly the written payloads, one per call, byte-identical, in order; the wire parses into exactly the written items once each; after a successful write the destination buffer is empty; an over-limit length yields an error while the source buffer has not grown toward it; no panic.",
+   note="Hostile prefixes are either above the 1 GiB limit or small: a prefix just below the limit would make the codec legitimately reserve up to 1 GiB and is not generated in this sandbox. A blocking WriteNext is given a send buffer that cannot fill (it cannot wait for writability by design).")
 
 NOT_YET = {
 }
